@@ -1956,5 +1956,128 @@ func (ctx *RenderContext) ToString(val interface{}) string {
 		}
 	}
 
-	return fmt.Sprintf("%v", val)
+	return formatWithoutAddresses(val)
+}
+
+// formatWithoutAddresses is fmt's %v, except that pointers nested inside lists, maps
+// and structs print as the value they point to instead of as an address (which
+// differs from run to run). Values without nested pointers are left to fmt.
+func formatWithoutAddresses(val interface{}) string {
+	rv := reflect.ValueOf(val)
+	if !holdsPointer(rv, 0) {
+		return fmt.Sprintf("%v", val)
+	}
+	var b strings.Builder
+	writeDereferenced(&b, rv, 0)
+	return b.String()
+}
+
+// holdsPointer reports whether a non-nil pointer is reachable inside a composite value
+func holdsPointer(rv reflect.Value, depth int) bool {
+	if depth > 32 || !rv.IsValid() {
+		return false
+	}
+	switch rv.Kind() {
+	case reflect.Ptr:
+		return depth > 0 && !rv.IsNil() || (!rv.IsNil() && holdsPointer(rv.Elem(), depth+1))
+	case reflect.Interface:
+		return !rv.IsNil() && holdsPointer(rv.Elem(), depth+1)
+	case reflect.Slice, reflect.Array:
+		for i := 0; i < rv.Len(); i++ {
+			if holdsPointer(rv.Index(i), depth+1) {
+				return true
+			}
+		}
+	case reflect.Map:
+		for _, k := range rv.MapKeys() {
+			if holdsPointer(rv.MapIndex(k), depth+1) {
+				return true
+			}
+		}
+	case reflect.Struct:
+		for i := 0; i < rv.NumField(); i++ {
+			if holdsPointer(rv.Field(i), depth+1) {
+				return true
+			}
+		}
+	}
+	return false
+}
+
+func writeDereferenced(b *strings.Builder, rv reflect.Value, depth int) {
+	if !rv.IsValid() {
+		b.WriteString("<nil>")
+		return
+	}
+	if depth > 32 {
+		b.WriteString("...")
+		return
+	}
+	switch rv.Kind() {
+	case reflect.Ptr, reflect.Interface:
+		if rv.IsNil() {
+			b.WriteString("<nil>")
+			return
+		}
+		if rv.Kind() == reflect.Ptr && rv.Elem().Kind() == reflect.Struct {
+			b.WriteString("&")
+		}
+		writeDereferenced(b, rv.Elem(), depth+1)
+	case reflect.Slice, reflect.Array:
+		b.WriteString("[")
+		for i := 0; i < rv.Len(); i++ {
+			if i > 0 {
+				b.WriteString(" ")
+			}
+			writeDereferenced(b, rv.Index(i), depth+1)
+		}
+		b.WriteString("]")
+	case reflect.Map:
+		keys := rv.MapKeys()
+		names := make([]string, len(keys))
+		for i, k := range keys {
+			var kb strings.Builder
+			writeDereferenced(&kb, k, depth+1)
+			names[i] = kb.String()
+		}
+		order := make([]int, len(keys))
+		for i := range order {
+			order[i] = i
+		}
+		sort.Slice(order, func(i, j int) bool { return names[order[i]] < names[order[j]] })
+		b.WriteString("map[")
+		for n, i := range order {
+			if n > 0 {
+				b.WriteString(" ")
+			}
+			b.WriteString(names[i])
+			b.WriteString(":")
+			writeDereferenced(b, rv.MapIndex(keys[i]), depth+1)
+		}
+		b.WriteString("]")
+	case reflect.Struct:
+		b.WriteString("{")
+		for i := 0; i < rv.NumField(); i++ {
+			if i > 0 {
+				b.WriteString(" ")
+			}
+			writeDereferenced(b, rv.Field(i), depth+1)
+		}
+		b.WriteString("}")
+	case reflect.Bool:
+		b.WriteString(strconv.FormatBool(rv.Bool()))
+	case reflect.Int, reflect.Int8, reflect.Int16, reflect.Int32, reflect.Int64:
+		b.WriteString(strconv.FormatInt(rv.Int(), 10))
+	case reflect.Uint, reflect.Uint8, reflect.Uint16, reflect.Uint32, reflect.Uint64, reflect.Uintptr:
+		b.WriteString(strconv.FormatUint(rv.Uint(), 10))
+	case reflect.Float32, reflect.Float64:
+		b.WriteString(fmt.Sprint(rv.Float()))
+	case reflect.Complex64, reflect.Complex128:
+		b.WriteString(fmt.Sprint(rv.Complex()))
+	case reflect.String:
+		b.WriteString(rv.String())
+	default:
+		// chan, func, unsafe pointer: no value to show
+		b.WriteString("<" + rv.Kind().String() + ">")
+	}
 }
